@@ -105,7 +105,10 @@ def main():
     shutil.copy(diff, os.path.join(d, 'patch.diff'))
     demo_src = re.sub(r"'/tmp/wt_[A-Za-z0-9_]+/rbql-py'", "os.environ.get('RBQL_TREE', '/repo') + '/rbql-py'", open(demo).read())
     if 'import os' not in demo_src:
-        demo_src = 'import os\n' + demo_src
+        lines = demo_src.split('\n')
+        fut = [i for i, l in enumerate(lines) if l.startswith('from __future__')]
+        lines.insert((max(fut) + 1) if fut else 0, 'import os')     # `from __future__` must stay the first statement
+        demo_src = '\n'.join(lines)
     open(os.path.join(d, 'demo.py'), 'w').write(demo_src)
     for f in os.listdir(os.path.dirname(os.path.abspath(demo))):
         if f.endswith('.js'):
